@@ -110,16 +110,15 @@ theorem bintree_leaf_pos_iter_eq (pos : Nat) (h : pos + 2 < 2^64) :
     cases he : pmmrLeafToInsertionIndex (bintreeRightmost pos) with
     | none => simp
     | some e =>
-      simp only
-      apply map_range'_eq
-      intro i hi
-      apply insertion_to_pmmr_index_eq
       have hb := pmh_fst_le hr
-      unfold pmmrLeafToInsertionIndex at he
-      simp only at he
-      split at he
-      · injection he with he; omega
-      · cases he
+      have hle : e ≤ 2^63 := by
+        unfold pmmrLeafToInsertionIndex at he
+        simp only at he
+        split at he
+        · injection he with he; omega
+        · cases he
+      exact map_range'_eq Fns.insertion_to_pmmr_index insertionToPmmrIndex s (e + 1 - s)
+        (fun i hi => insertion_to_pmmr_index_eq (s + i) (by omega))
 
 theorem bintree_leaf_pos_iter_ok (pos : Nat) (h : pos < 2^64) :
     Fns.bintree_leaf_pos_iter_ok pos = true := by
